@@ -687,13 +687,18 @@ Definition omin (a b : option N) : option N :=
   | Some x, Some y => Some (N.min x y)
   end.
 
-(* events: external handles with their arrival times, sorted by time *)
+(* events: external handles with their arrival times, sorted by time: the arrived ones are a prefix *)
+Fixpoint split_arrived (t : N) (events : list (N * handle)) : list (N * handle) * list (N * handle) :=
+  match events with
+  | [] => ([], [])
+  | e :: r => if fst e <=? t then let '(a, l) := split_arrived t r in (e :: a, l) else ([], events)
+  end.
+
 Fixpoint run (fuel : nat) (events : list (N * handle)) (t_end : N) (rev_ties : bool) (w : world) : world * bool :=
   match fuel with
   | O => (w, false)
   | S f =>
-      let arrived := filter (fun e => fst e <=? now w) events in
-      let later := filter (fun e => negb (fst e <=? now w)) events in
+      let '(arrived, later) := split_arrived (now w) events in
       let due_now := match next_timer w with Some t => t <=? now w | None => false end in
       match ready w, arrived, due_now with
       | [], [], false =>
